@@ -230,7 +230,7 @@ CLAIMED = {
         ref="6/C14", engine="tf,tfchain"),
     "C15": dict(
         text="Lean 4 theorems: each modelled operator equals its declarative predicate for all arguments and inputs (substring/"
-             "prefix/suffix, integer order on Go's Atoi with clamping, '%'-escape well-formedness, byte ranges, @pm = "
+             "prefix/suffix, integer order on Go's Atoi with clamping, '%'-escape well-formedness, byte ranges, @pm / @pmFromFile / @pmFromDataset = "
              "ASCII-case-insensitive membership incl. the length short-circuit, negation = complement; @ipMatch independent of the "
              "address spelling; @rx on the modelled RE2 fragment: the matcher is exact w.r.t. a declarative match relation for every "
              "expression and input), tied to /repo by differential execution of the real operators (`op`, `rxm`); captures TX.0-9 are "
